@@ -115,6 +115,7 @@ type Machine struct {
 	curUnwind int
 	MaxSteps int
 	MaxDepth int
+	MaxDecisions int
 	GoInline bool
 	Verbose  bool
 	Thorough bool
@@ -143,6 +144,7 @@ type Machine struct {
 	steps     int
 	depth     int
 	onceDone  map[string]bool
+	lockEdges map[[2]string]bool
 	overrides map[string]*FuncV
 	ghost     map[string]Value
 	stack     []string
@@ -154,7 +156,7 @@ type Machine struct {
 }
 
 func NewMachine(p *Program, s smt.Checker) *Machine {
-	return &Machine{P: p, Solver: s, Unwind: 4, MaxSteps: 400000, MaxDepth: 120,
+	return &Machine{P: p, Solver: s, Unwind: 4, MaxSteps: 400000, MaxDepth: 120, MaxDecisions: 400,
 		HavocCalls: map[string]int{}, FuncsSeen: map[*ssa.Function]bool{}}
 }
 
@@ -181,6 +183,7 @@ func (m *Machine) reset(prefix []int) {
 	m.steps = 0
 	m.depth = 0
 	m.onceDone = map[string]bool{}
+	m.lockEdges = nil
 	m.overrides = map[string]*FuncV{}
 	m.ghost = map[string]Value{}
 	m.stack = nil
@@ -299,6 +302,9 @@ func (m *Machine) decide(conds []*smt.Term, site ssa.Instruction) int {
 			m.end("unwind", fmt.Sprintf("more than %d symbolic decisions at %s", m.curUnwind, where))
 		}
 	}
+	if len(m.trace) > m.MaxDecisions {
+		m.end("unwind", fmt.Sprintf("more than %d decisions on one path", m.MaxDecisions))
+	}
 	pos := len(m.trace)
 	if pos < len(m.prefix) {
 		k := m.prefix[pos]
@@ -334,10 +340,25 @@ func (m *Machine) decide(conds []*smt.Term, site ssa.Instruction) int {
 	return k
 }
 
+// chooseAt is choose with unwinding accounting for the instruction site that asks.
+func (m *Machine) chooseAt(n int, site ssa.Instruction) int {
+	if site != nil && n > 1 {
+		k := siteKey{site, m.curFrame}
+		m.siteCnt[k]++
+		if m.siteCnt[k] > m.curUnwind {
+			m.end("unwind", fmt.Sprintf("more than %d nondeterministic choices at %s", m.curUnwind, m.P.Fset.Position(site.Pos())))
+		}
+	}
+	return m.choose(n)
+}
+
 // choose forks n ways without constraints (nondeterministic choice).
 func (m *Machine) choose(n int) int {
 	if n <= 1 {
 		return 0
+	}
+	if len(m.trace) > m.MaxDecisions {
+		m.end("unwind", fmt.Sprintf("more than %d decisions on one path", m.MaxDecisions))
 	}
 	pos := len(m.trace)
 	if pos < len(m.prefix) {
@@ -847,7 +868,7 @@ func (m *Machine) selectOp(fr *frame, ins *ssa.Select) Value {
 	if n == 0 {
 		m.end("blocked", "select with no ready case")
 	}
-	k := m.choose(n)
+	k := m.chooseAt(n, ins)
 	m.effect("select", smt.BVC(64, uint64(k)))
 	res := make(TupleV, 2+countRecv(ins))
 	if k >= len(ready) {
@@ -1920,6 +1941,10 @@ func (m *Machine) lock(p *Ptr, write bool, name string) {
 	}
 	for _, h := range m.heldOrder {
 		m.effect("lock_order", smt.StrC(h), smt.StrC(k))
+		if m.lockEdges == nil {
+			m.lockEdges = map[[2]string]bool{}
+		}
+		m.lockEdges[[2]string{h, k}] = true
 	}
 	if write {
 		m.held[k] = 1
@@ -1956,4 +1981,35 @@ func (m *Machine) SortedHavoc() []string {
 	}
 	sort.Strings(out)
 	return out
+}
+
+// LockOrderCycle reports whether the lock-order edges (A held while B acquired) recorded on this path
+// contain a cycle: two code paths that take the same locks in opposite orders deadlock when they run
+// concurrently.
+func (m *Machine) LockOrderCycle() bool {
+	adj := map[string][]string{}
+	for e := range m.lockEdges {
+		adj[e[0]] = append(adj[e[0]], e[1])
+	}
+	state := map[string]int{}
+	var dfs func(n string) bool
+	dfs = func(n string) bool {
+		state[n] = 1
+		for _, x := range adj[n] {
+			if state[x] == 1 {
+				return true
+			}
+			if state[x] == 0 && dfs(x) {
+				return true
+			}
+		}
+		state[n] = 2
+		return false
+	}
+	for n := range adj {
+		if state[n] == 0 && dfs(n) {
+			return true
+		}
+	}
+	return false
 }
